@@ -354,7 +354,7 @@ PROPS = {
                               "Staged.session_coherent", "Staged.stage_visible", "Staged.commit_stores", "Staged.edit_after_merge",
                               "Staged.pinned_close_incoherent", "LruEvict.evictLoop_keeps_dirty", "LruEvict.evictLoop_dropped_clean",
                               "LruEvict.evict_bound", "LruEvict.inv_step", "LruEvict.staged_never_evicted", "LruEvict.dirty_until_commit",
-                              "LruEvict.pinned_new_fails_under_pressure"],
+                              "LruEvict.pinned_new_fails_under_pressure", "LruEvict.gen_evict_loop", "LruEvict.gen_evict_order"],
         "slices": ["C11"],
         "rule": "sessions of 8..22 (quick) / ..45 (thorough) actions by two users on two go-git repositories sharing a remote, over {new bug, "
                 "comment, label, status, title, edits left staged, commit of everything staged, push, pull, remove, close+reopen (also with "
@@ -367,7 +367,7 @@ PROPS = {
                 "live cache = rebuilt cache at the end; non-trivial/distinct = distinct sessions",
         "trusted_base": [KERNEL, TIE, "model: GitBugModel.Cache (step, rebuild, served), GitBugModel.CacheStaged (staging, excerpt file, Close/Load/Build) and GitBugModel.Lru (LRU list, evictIfNeeded) for cache/subcache.go, cache/cached.go, cache/lru_id_cache.go"],
         "assumptions": ["comparison points are quiescent (nothing staged): after an edit that is left staged the comparison waits for the commit or the reopen"],
-        "gen_facts": [],
+        "gen_facts": ["Gen.Evict.early/loop = the statements of evictIfNeeded that GitBugModel.Lru.evictLoop transcribes; Gen.Evict.order* = the order in which add, Resolve, SetCacheSize and entityUpdated touch the LRU list, announce and evict"],
         "timeout": {"quick": 900, "thorough": 7200},
     },
     "C14": {
